@@ -193,7 +193,7 @@ Section QueryAddr.
   Proof.
     unfold cmp_keeps, validate_to. destruct l as [q body|b sp|sp]; cbn [litv_vd litv_value validator_of validate_entry];
       (destruct e as [v|]; [destruct v|]; cbn [validate_entry cmp_entry iface_eq fst lit_test]; try reflexivity).
-    - destruct (String.eqb s (text_of body)); reflexivity.
+    - destruct (String.eqb s (text_of (unescape_cps body))); reflexivity.
     - destruct (Bool.eqb b0 b); reflexivity.
   Qed.
   Lemma valid_direct l e : is_valid (CDirectEq (litv_vd l)) e = match e, litv_value l with Some (VStr _), VStr _ | Some (VBool _), VBool _ | Some VNull, VNull => true | _, _ => false end.
